@@ -377,7 +377,15 @@ func c19Restore(ctx *Ctx, i int) {
 func c19Concurrent(ctx *Ctx, i int) {
 	r := rand.New(rand.NewSource(ctx.Seed*7_000_003 + int64(i)))
 	ac := &asyncCounter{}
-	setHook(ac.hook)
+	// in the eviction variants every second history lets the asynchronous cache update (and the eviction it
+	// may start) of a write finish before the same command's setExpiry step begins
+	holdExpiry := i%4 != 0 && (i/4)%2 == 0
+	setHook(func(name string, args ...interface{}) {
+		ac.hook(name, args...)
+		if holdExpiry && name == "ks.setExpiry" {
+			ac.wait(200 * time.Millisecond)
+		}
+	})
 	defer setHook(nil)
 	root := mkScratch("c19c")
 	defer os.RemoveAll(root)
@@ -408,7 +416,9 @@ func c19Concurrent(ctx *Ctx, i int) {
 			for k := 0; k < nOps; k++ {
 				key := fmt.Sprintf("ck%d", rr.Intn(nKeys))
 				var argv []string
-				switch rr.Intn(7) {
+				switch rr.Intn(8) {
+				case 7:
+					argv = []string{"SET", key, strings.Repeat("t", 50+rr.Intn(3000)), "EXAT", "1999999999"}
 				case 0:
 					argv = []string{"SET", key, strings.Repeat("s", 50+rr.Intn(3000))}
 				case 1, 2:
@@ -476,6 +486,12 @@ func c19Concurrent(ctx *Ctx, i int) {
 	got2 := memUsed(in)
 	ctx.Eval(1)
 	ctx.Class("concurrent|" + variant)
+	if aerr != nil {
+		ctx.Violate(Violation{Kind: "memory", Lane: "concurrent-" + variant,
+			What: fmt.Sprintf("after %d operations from %d goroutines (%s) the store holds an entry the server's own size function cannot account for: %v; reported MemoryUsed=%d", ops.Load(), nW, variant, aerr, got),
+			Case: map[string]interface{}{"variant": variant, "index": i, "seed": ctx.Seed}, Key: "c19|concurrent-unaccountable"})
+		return
+	}
 	if aerr == nil && got == got2 && got != want {
 		ctx.Violate(Violation{Kind: "memory", Lane: "concurrent-" + variant,
 			What: fmt.Sprintf("after %d operations from %d goroutines on %d shared keys (large collections written over expired and evicted entries; %s) the server at rest reports MemoryUsed=%d but the %d keys stored account for %d (difference %+d)", ops.Load(), nW, nKeys, variant, got, countKeysDump(in.S.VerifDump()), want, got-want),
